@@ -311,6 +311,14 @@ def explore(subseed, cfg):
             'opts': []}
     if rnd.random() < 0.2 and info['addr_bits'] >= 12:
         case['opts'] = ['-e', str(info['origin'] + rnd.choice([255, 1023])), '-f', str(rnd.randrange(256))]
+    if rnd.random() < 0.25:
+        # command-line symbols: a legal set, or the same name twice (rejected - in every run, whatever the order)
+        dopts = rnd.choice([['-D', 'LVL=1'], ['-D', 'LVL=1', '-D', 'DBG2'], ['-D', 'LVL=1', '-D', 'LVL=2'],
+                            ['-D', 'LVL', '-D', 'LVL=3', '-D', 'OTHER=1'], ['-D', 'LVL=2', '-D', 'LVL=2']])
+        case['opts'] = case['opts'] + dopts
+        main['items'][2:2] = [{'t': 'line', 's': x, 'r': x} for x in (
+            '#ifdef LVL', '  .byte LVL', '#else', '  .byte $4C', '#endif')]
+        pr['cli_symbols'] = 1
     ambiguous = False
     files = progtree.all_files(main)
     if len(files) > 1 and rnd.random() < 0.2:
@@ -346,7 +354,8 @@ def explore(subseed, cfg):
     if r0['kind'] in ('crash', 'wall_timeout') or r0.get('gaps'):
         out['harness'].append(f'reference run: {r0["kind"]} {r0.get("gaps")}')
         return _fin(out)
-    if o0['failed'] and not ambiguous:
+    dupd = len([x for x in case['opts'] if x.startswith('LVL')]) > 1
+    if o0['failed'] and not ambiguous and not dupd:
         out['discarded'][f'reference fails: {(r0.get("exc") or r0.get("stderr") or "")[:50]}'] = 1
         return _fin(out)
 
